@@ -112,6 +112,10 @@ def special_modules():
                         "  V ::= SEQUENCE { f F, g G, l SET OF F, t T, u U, m M, n N }"),
         M("SpUnions", "  A ::= INTEGER (MIN..-1 | 1..MAX)\n  B ::= OCTET STRING (SIZE(1 | 3..5))\n  C ::= INTEGER (0..MAX, ...)\n  D ::= INTEGER (MIN..MAX)\n  E ::= INTEGER (1 | 3 | 5, ..., 7)\n"
                       "  F ::= SEQUENCE { a A, b B, c C, d D, e E }\n  U ::= INTEGER\n  T ::= OCTET STRING (CONTAINING U)"),
+        M("SpStrDefaultComment", "  T ::= SEQUENCE { a IA5String DEFAULT \"a*/b\", z BOOLEAN }", "AUTOMATIC"),
+        M("SpStrDefaults", "  T ::= SEQUENCE { a IA5String DEFAULT \"back\\\\slash\", b IA5String DEFAULT \"quote\"\"inside\", c UTF8String DEFAULT \"line1 %s %d\", "
+                          "d BIT STRING DEFAULT '0101'B, e OCTET STRING DEFAULT 'FF'H, f REAL DEFAULT 1.5, g SEQUENCE OF INTEGER DEFAULT { 1, 2 }, z BOOLEAN }", "AUTOMATIC"),
+        M("SpEnumNegDefault", "  T ::= SEQUENCE { a ENUMERATED { x(-1), y(0) } DEFAULT x, z BOOLEAN }", "AUTOMATIC"),
         M("SpComponentsOf", "  A ::= SEQUENCE { a INTEGER, b BOOLEAN }\n  B ::= SEQUENCE { COMPONENTS OF A, c NULL }", "AUTOMATIC"),
         M("SpWithComponents", "  A ::= SEQUENCE { a INTEGER OPTIONAL, b BOOLEAN OPTIONAL }\n  B ::= A (WITH COMPONENTS { a PRESENT, b ABSENT })\n  C ::= A (WITH COMPONENTS { ..., a (0..5) })"),
         M("SpStrings", "  A ::= IA5String (SIZE(1..5)) (FROM(\"a\"..\"z\"))\n  B ::= UTF8String (SIZE(0..MAX))\n  C ::= BMPString (FROM(\"A\"..\"Z\"))\n  D ::= UniversalString (SIZE(2))\n"
